@@ -235,10 +235,10 @@ static bool chpen(TickitTermDriver *ttd, const TickitPen *delta, const TickitPen
 {
   struct XTermDriver *xd = (struct XTermDriver *)ttd;
 
-  /* There can be at most 16 SGR parameters; 5 from each of 2 colours, and
-   * 6 single attributes
+  /* There can be at most 19 SGR parameters; 5 from each of 2 RGB colours,
+   * 2 from underline with a style sub-parameter, and 7 single attributes
    */
-  int params[16];
+  int params[19];
   int pindex = 0;
 
   for(TickitPenAttr attr = 1; attr < TICKIT_N_PEN_ATTRS; attr++) {
